@@ -159,7 +159,7 @@ func utf32Bytes(s string, big bool) []byte {
 
 // ldMutations invalidates a parsed JSON-LD document at a node chosen by pick.
 var ldMutationNames = []string{"id-number", "id-bool", "id-object", "type-number", "type-object", "context-number", "vocab-number", "language-number", "base-number",
-	"value-with-id", "value-object", "value-language-number", "value-type-number", "reverse-scalar", "keyword-redefined", "term-number", "context-array-number", "id-array", "list-of-value-object", "index-number", "included-scalar"}
+	"value-with-id", "value-object", "value-language-number", "value-type-number", "reverse-scalar", "keyword-redefined", "term-number", "context-array-number", "id-array", "list-of-value-object", "index-number", "included-scalar", "container-array-number", "protected-number"}
 
 func firstNode(doc any) map[string]any {
 	switch x := doc.(type) {
@@ -182,8 +182,35 @@ func firstNode(doc any) map[string]any {
 	return nil
 }
 
+// lastNode is the node a reader meets last (the mutation then sits at the end of a possibly long document)
+func lastNode(doc any) map[string]any {
+	switch x := doc.(type) {
+	case []any:
+		for i := len(x) - 1; i >= 0; i-- {
+			if n := lastNode(x[i]); n != nil {
+				return n
+			}
+		}
+	case map[string]any:
+		if g, ok := x["@graph"]; ok {
+			if n := lastNode(g); n != nil {
+				return n
+			}
+		}
+		if _, ok := x["@id"]; ok {
+			return x
+		}
+	}
+	return nil
+}
+
 func applyLDMutation(doc any, name string) any {
+	late := strings.HasSuffix(name, "@last-node")
+	name = strings.TrimSuffix(name, "@last-node")
 	n := firstNode(doc)
+	if late {
+		n = lastNode(doc)
+	}
 	if n == nil {
 		n = map[string]any{"@id": "http://ex.org/n/x"}
 		doc = []any{n}
@@ -232,6 +259,10 @@ func applyLDMutation(doc any, name string) any {
 		n[prop] = map[string]any{"@value": "x", "@index": 5}
 	case "included-scalar":
 		n["@included"] = "scalar"
+	case "container-array-number":
+		n["@context"] = map[string]any{"term": map[string]any{"@id": "http://ex.org/t", "@container": []any{5}}}
+	case "protected-number":
+		n["@context"] = map[string]any{"@protected": 1, "term": "http://ex.org/t"}
 	}
 	return doc
 }
@@ -239,7 +270,7 @@ func applyLDMutation(doc any, name string) any {
 func genC04(t *rapid.T) c04Case {
 	c := c04Case{
 		Profile: rapid.IntRange(0, len(c04Profiles)-1).Draw(t, "profile"),
-		Entry:   rapid.SampledFrom([]string{"Validate", "ValidateWithConfiguration", "ValidateCompiled", "ValidateCompiledWithConfiguration", "cli"}).Draw(t, "entry"),
+		Entry:   rapid.SampledFrom([]string{"Validate", "ValidateWithConfiguration", "ValidateCompiled", "ValidateCompiledWithConfiguration", "cli", "Validate x8 at once", "ValidateCompiled x8 at once"}).Draw(t, "entry"),
 		Debug:   rapid.Bool().Draw(t, "debug"),
 	}
 	g := smallGraph(t)
@@ -294,6 +325,9 @@ func genC04(t *rapid.T) c04Case {
 			t.Fatalf("harness: generated document does not parse: %v", err)
 		}
 		name := pick(t, ldMutationNames, "mutation")
+		if rapid.Bool().Draw(t, "atLastNode") {
+			name += "@last-node"
+		}
 		c.Class += ":" + name
 		b, _ := json.Marshal(applyLDMutation(doc, name))
 		c.Data = b
@@ -387,6 +421,35 @@ func decideC04(c c04Case) ev.Verdict {
 			res = guard(func() (string, error) {
 				return pkg.ValidateCompiledWithConfiguration(q, data, c.Debug, nil, clock0, config.DefaultReportConfiguration())
 			})
+		}
+	case "Validate x8 at once", "ValidateCompiled x8 at once":
+		// the same unreadable text handed to eight callers at the same moment: each of them gets the error
+		q, err := c04Query(c.Profile)
+		if err != nil {
+			return ev.Violation("c04-profile-does-not-compile", "fixed declarative profile %d does not compile: %v", c.Profile, err)
+		}
+		outs := make([]call, 8)
+		var wg sync.WaitGroup
+		start := make(chan struct{})
+		for i := range outs {
+			wg.Add(1)
+			go func(i int) {
+				defer wg.Done()
+				<-start
+				if strings.HasPrefix(c.Entry, "ValidateCompiled") {
+					outs[i] = guard(func() (string, error) { return pkg.ValidateCompiled(q, data, c.Debug, nil) })
+				} else {
+					outs[i] = guard(func() (string, error) { return pkg.Validate(profile, data, c.Debug, nil) })
+				}
+			}(i)
+		}
+		close(start)
+		wg.Wait()
+		res = outs[0]
+		for _, o := range outs {
+			if o.Panic != "" || o.Err == nil || o.Report != "" {
+				res = o // judged below like a single call
+			}
 		}
 	case "cli":
 		if os.Getenv("ACV_BIN") == "" {
